@@ -111,7 +111,8 @@ Print Assumptions C14_reopen_identity.
 
 Theorem C14_readonly_rejects : forall q s o,
   f_ro s = true ->
-  match o with NewT _ | NewV _ | NewVs _ | Reopen _ | Obs | Count => False
+  match o with NewT _ | NewV _ | NewVs _ | Reopen _ | Obs | Count
+             | VEq _ _ | VGet _ _ | VGetNoneT _ | VShow _ | VSup _ | VSwap _ _ | PShow => False
              | SetUnc _ => q_ro_unc_leak q = false | _ => True end ->
   fst (step q o s) = s /\ exists e, snd (step q o s) = Err e.
 Proof. exact readonly_rejects. Qed.
@@ -158,6 +159,29 @@ Theorem C14_spec_last_assigned : forall vs ops a p,
   option_map a_vals (a_prop (spec_final (SetVals vs :: ops) a)) = Some vs.
 Proof. exact spec_last_assigned. Qed.
 Print Assumptions C14_spec_last_assigned.
+
+(** further public routes of the value class: == is equality of the carried value (doubles as in C++),
+    get<T>() returns the value exactly when T is its type, compare() is antisymmetric and 0 only for equal names *)
+Theorem C14_variant_eqb_type : forall a b, variant_eqb a b = true -> type_of a = type_of b.
+Proof. exact variant_eqb_type. Qed.
+Print Assumptions C14_variant_eqb_type.
+
+Theorem C14_variant_eqb_eq : forall a b, (forall d, a <> VDouble d) -> (variant_eqb a b = true <-> a = b).
+Proof. exact variant_eqb_eq. Qed.
+Print Assumptions C14_variant_eqb_eq.
+
+Theorem C14_variant_get_spec : forall t v,
+  (type_of v = t -> variant_get t v = Ok v) /\ (type_of v <> t -> variant_get t v = Err INVARG).
+Proof. exact variant_get_spec. Qed.
+Print Assumptions C14_variant_get_spec.
+
+Theorem C14_compare_antisym : forall a b, str_cmp a b = (- str_cmp b a)%Z.
+Proof. exact str_cmp_antisym. Qed.
+Print Assumptions C14_compare_antisym.
+
+Theorem C14_compare_zero : forall a b, str_cmp a b = 0%Z <-> a = b.
+Proof. exact str_cmp_zero. Qed.
+Print Assumptions C14_compare_zero.
 
 (** non-vacuity: a real round trip through unit, read-only reopen and a refused write *)
 Example C14_nonvacuous :
